@@ -21,7 +21,8 @@ CB_THEOREMS = ["Drand.Chain.Callback." + t for t in [
     "c12r_put_never_waits", "c12r_put_completes_alone", "c12r_put_begins", "c12_addcallback_never_waits",
     "c11_dispatch_reaches_or_ends", "c11_never_dropped", "c11_closed_is_last", "c11_table_frozen_during_put"]]
 CACHE_THEOREMS = ["Drand.Beacon." + t for t in [
-    "c12_cache_inv", "c12_cache_bound", "c12_rounds_listed", "c12_no_wedge", "c12_append_takes", "c12_isolation", "c12_flush_exact"]]
+    "c12_cache_inv", "c12_cache_bound", "c12_rounds_listed", "c12_no_wedge", "c12_append_takes", "c12_isolation", "c12_flush_exact",
+    "append_duplicate", "tie_cache_append_variant"]]
 THEOREMS = CB_THEOREMS + CACHE_THEOREMS
 TRUSTED = ["Lean 4 kernel; axioms per theorem under coverage.axioms",
            "modelled, not verified: goroutines as explicit steps, a buffered channel as a bounded FIFO list, sync.RWMutex as 'writers wait for readers and vice versa' (Go's writer preference is not needed for any statement)",
@@ -287,7 +288,7 @@ def parse_dump(out):
     rounds = {}
     for e in m.group(1).split():
         k, v = e.split("=")
-        rounds[k] = set(v.split(",")) if v else set()
+        rounds[k] = set(x.split("/")[0] for x in v.split(",")) if v else set()     # "signer/first bytes of the cached partial"
     return rounds
 
 
